@@ -1,5 +1,5 @@
 SPECIFICATION Spec
 CONSTANTS
   Tier = "quick"
-  StrictAddr = FALSE
+  StrictAddr = TRUE
 INVARIANTS RoundTrip ReEncode HashStable PertsRefused NrdOffRefused WritableOK
